@@ -16,7 +16,7 @@ import torch
 import pypose as pp
 from torch import nn
 
-from .. import lie, progs
+from .. import lie, progs, history
 from ..oracles import lie_ref as L
 from ..progs import Leaf, Node, T_G, T_A
 
@@ -460,6 +460,10 @@ def run(ck):
     dt = torch.float64
     if ck.shard == 0:
         exact_exp_log(ck, ck.rng("exact-first"), thorough)   # first thing in this process: float32 calls precede every float64 call
+    if ck.shard == 2 % ck.nshards:
+        # the same object evaluated under no_grad first / twice with grad enabled: gradients as on a fresh object (all operators, matrix(), accessors)
+        for prop_ in history.ALL_PROPS:
+            history.grad_mode_history(ck, prop_)
     # ---------------- (1) every operator alone, hostile points, all groups
     cases = []
     for k in progs.GROUPS:
